@@ -60,6 +60,18 @@ def names_unicode(rng, count):
         yield lead + "/".join(comps)
 
 
+def _climbs(name):
+    """does a stored member name, read component by component, ever stand above the archive root?"""
+    depth = 0
+    for part in name.split("/"):
+        if part in ("", "."):
+            continue
+        depth += -1 if part == ".." else 1
+        if depth < 0:
+            return True
+    return False
+
+
 def run(ctx):
     rng = ctx.rng
     ctx.lean_obligations("SevenZ.Props.C16")
@@ -77,6 +89,7 @@ def run(ctx):
     probe_dir = tempfile.mkdtemp(prefix="verif_c16p_")
     probe_file = pathlib.Path(probe_dir) / "probe.txt"
     probe_file.write_bytes(b"x")
+    zobj = py7zr.SevenZipFile(io.BytesIO(), "w")
     for n in names:
         # -- check_archive_path
         try:
@@ -90,7 +103,7 @@ def run(ctx):
         verdicts.append(vs)
         # -- _sanitize_archive_arcname + stored name
         try:
-            p = py7zr.SevenZipFile._sanitize_archive_arcname(None, n)
+            p = zobj._sanitize_archive_arcname(n)
             ps = "ok " + enc(p)
             # the name write()/writeall() really store: through the implementation's own member-record builder
             stored = py7zr.SevenZipFile._make_file_info(probe_file, p, False)["filename"]
@@ -106,11 +119,14 @@ def run(ctx):
                          {"arcname": n, "sanitized": p, "stored": stored})
         if vs == "1":
             # the name writestr()/writef() really store for an accepted name
-            stored2 = py7zr.SevenZipFile._make_file_info_from_name(None, io.BytesIO(b""), 0, n)["filename"]
+            stored2 = zobj._make_file_info_from_name(io.BytesIO(b""), 0, n)["filename"]
             ops["stored"].append("path.stored " + enc(n))
             outs["stored"].append(enc(stored2))
             if stored2.startswith("/"):
                 ctx.fail("C16:stored_absolute", "writestr/writef accept the name and store an absolute member name",
+                         {"arcname": n, "stored": stored2})
+            if _climbs(stored2):
+                ctx.fail("C16:stored_escapes", "writestr/writef accept the name and store a member name that climbs above the archive root",
                          {"arcname": n, "stored": stored2})
         ops["canon"].append("path.canon " + enc(n))
         outs["canon"].append(enc(str(helpers.canonical_path(pathlib.Path(n)))))
